@@ -108,7 +108,11 @@ def matchFraction (s : List Char) : Option (List Char × List Char) :=
     if r''.isEmpty then some (n, d) else none
   | _ => none
 
-/-- `ParsePortionSpecific`. Errors: "invalid format", "invalid fractional format"
+/-- `ParsePortionSpecific` with both fraction parts read in base 10.  NOTE: the real
+    function reads them with `big.Rat.SetString`, i.e. in base 0 (a leading `0` means
+    octal: `010/100` is 8/64, `007/008` is rejected); the exact function is
+    `parsePortionGo` in `Ledger/Machine/Validate.lean`, which refines this one and is
+    what the drivers compare with the code.  Errors: "invalid format", "invalid fractional format"
     (zero denominator), or the range error of `NewPortionSpecific`. -/
 def parsePortionSpecific (input : String) : Except String Portion :=
   let s := input.toList
